@@ -7,6 +7,7 @@ namespace {
 using namespace model;
 
 void run_c02(sim::RunCtx& ctx) {
+    gen::g_row_cap = 0;
     validfile::VF vf; validfile::Opts vo; vo.small = sim::draw(4) != 3;
     common::apply_benign_knobs();
     const std::string path = SIMDISK "c02.parquet";
